@@ -85,6 +85,10 @@ func solveOne(o *Obligation, dir string, idx int, timeoutS int, all bool) *Solve
 		}
 		return &SolveResult{Status: "unsat", Solver: "simplifier"}
 	}
+	if o.Cover && timeoutS > 3 {
+		timeoutS = 3 // a cover only has to fail to be refuted quickly
+		all = false
+	}
 	file := filepath.Join(dir, fmt.Sprintf("o%05d.smt2", idx))
 	if err := os.WriteFile(file, []byte(o.SMT(false)), 0o644); err != nil {
 		return &SolveResult{Status: "error", Output: err.Error()}
